@@ -229,3 +229,10 @@ SPECS["C01"] += [
              cell={"loops": ["i", "j"], "arrays": {}, "columns": {"expanded_indices": (I, ("i", "j"))}},
              doc="`depth` is `d = interior_indices.shape[0]`; the result is the column `expanded_indices[:, i, j]`"),
 ]
+
+
+# ---- C14: the cache decorator and the cached query methods of RayGeometry, read structurally (py2lean_cache.py)
+import py2lean_cache
+CUSTOM = {"C14": py2lean_cache.translate}
+SPECS["C14"] = list(py2lean_cache.SPEC_NAMES)
+IMPORTS["C14"] = ["ArimModel.RayCache"]
